@@ -308,6 +308,11 @@ fn scan_single_variable(
 ) {
     let mut offset = 0;
     while offset < region.mem.len() {
+        // The limit can already be reached by the matches found in previous regions.
+        if string_matches.len() >= (scan_data.params.string_max_nb_matches as usize) {
+            break;
+        }
+
         let mat = matcher.find_next_match_at(region.mem, offset);
 
         match mat {
